@@ -2,6 +2,7 @@ import GridVerif.Props.C08
 import GridVerif.Props.C08.Gen
 import GridVerif.Props.C08.Scipy
 import GridVerif.Props.C08.Windows
+import GridVerif.Props.C08.Effects
 
 #print axioms GridVerif.C08.row_index_bij
 #print axioms GridVerif.C08.ylm_rows_spec
@@ -34,3 +35,9 @@ import GridVerif.Props.C08.Windows
 #print axioms GridVerif.C08.scipy_agrees_with_recursion
 #print axioms GridVerif.C08.scipy_angle_window
 #print axioms GridVerif.C08.gen_threshold_windows
+#print axioms GridVerif.C08.gen_effects_routines
+#print axioms GridVerif.C08.gen_arguments_not_written
+#print axioms GridVerif.C08.gen_points_axis_whole
+#print axioms GridVerif.C08.gen_scipy_column_independent
+#print axioms GridVerif.C08.gen_scipy_split_additive
+#print axioms GridVerif.C08.gen_solid_rows_spec
